@@ -86,7 +86,7 @@ def gen_leaf(rng, plain=False):
     if r < 0.74:
         return {"t": "bytes", "v": rng.choice(["", "ab", "\\x00"])}
     if r < 0.82:
-        return {"t": "kw", "v": rng.choice(["k", "key-word"])}
+        return {"t": "kw", "v": rng.choice(["k", "key-word", ":a", "::", "a:b"])}
     if plain:
         return {"t": "int", "v": 3}
     if r < 0.9:
@@ -120,7 +120,17 @@ def gen_value(rng, depth, nmut, faulty, plain=False):
     t = rng.choice(kinds)
     n = rng.choice([0, 1, 2, 2, 3, 4])
 
+    made = []
+
     def child(mut_parent):
+        if made and rng.random() < 0.12:
+            # the SAME object again (shared but not cyclic)
+            return {"t": "alias", "back": rng.randrange(1, len(made) + 1)}
+        c = child0(mut_parent)
+        made.append(c)
+        return c
+
+    def child0(mut_parent):
         if mut_parent and rng.random() < faulty:
             if rng.random() < 0.6:
                 return {"t": "ref", "up": rng.randrange(1, nmut + 2)}
@@ -205,20 +215,35 @@ def build(spec, anc=None):
         for _ in range(spec["n"]):
             l = [l]
         return l
+    def seq(specs):
+        out = []
+        real = []
+        for s in specs:
+            if s["t"] == "alias":
+                v = real[-min(s["back"], len(real))] if real else 0
+            else:
+                v = build(s, anc)
+                real.append(v)
+            out.append(v)
+        return out
+
     if t == "list":
         l = []
         anc.append(l)
-        l.extend(build(s, anc) for s in spec["items"])
+        l.extend(seq(spec["items"]))
         anc.pop()
         return l
     if t == "dict":
         d = {}
         anc.append(d)
-        for k, v in spec["items"]:
-            d[build(k, anc)] = build(v, anc)
+        vals = seq([v for _, v in spec["items"]])
+        for (k, _), v in zip(spec["items"], vals):
+            d[build(k, anc)] = v
         anc.pop()
         return d
-    items = [build(s, anc) for s in spec["items"]]
+    if t == "alias":
+        return 0
+    items = seq(spec["items"]) if t != "set" else [build(s, anc) for s in spec["items"]]
     if t == "tuple":
         return tuple(items)
     if t == "set":
@@ -339,7 +364,7 @@ def _paths(spec, prefix=()):
 
 def _is_plain(spec):
     t = spec["t"]
-    if t in ("sym", "mint", "mstr", "mlist", "mexpr", "mtuple", "mdict", "mset", "ref", "obj", "fn", "sublist", "deep"):
+    if t in ("sym", "mint", "mstr", "mlist", "mexpr", "mtuple", "mdict", "mset", "ref", "obj", "fn", "sublist", "deep", "alias"):
         return False
     if t == "float" and spec["v"] != spec["v"]:
         return False
@@ -356,6 +381,9 @@ def generate(rng, tier):
         v = gen_value(rng, rng.choice([2, 3, 3, 4]), 0, faulty, plain=rng.random() < 0.5)
         if v["t"] not in MUT:
             v = {"t": "list", "items": [v]}
+        if rng.random() < 0.25:
+            # an existing model that holds raw (mutable) containers
+            v = {"t": rng.choice(["mlist", "mtuple", "mexpr"]), "items": ([{"t": "sym", "v": "f"}] if rng.random() < 0.5 else []) + [v, {"t": "list", "items": [{"t": "int", "v": 1}]}]}
         pool.append(v)
     ops = []
     n = rng.randrange(4, 15)
@@ -367,8 +395,10 @@ def generate(rng, tier):
         elif r < 0.45:
             ps = list(_paths(pool[slot]))
             op = {"op": "promote_sub", "slot": slot, "path": list(rng.choice(ps))} if ps else {"op": "promote", "slot": slot}
-        elif r < 0.55:
+        elif r < 0.5:
             op = {"op": "heal", "slot": slot}
+        elif r < 0.55:
+            op = {"op": "mutate", "slot": slot, "v": rng.randrange(1000)}
         elif r < 0.6:
             op = {"op": "fresh", "spec": {"t": "deep", "n": rng.choice([1500, 4000])}}
         elif r < 0.7 and ops and ops[-1]["op"] == "fresh":
@@ -420,6 +450,26 @@ def _heal(obj, stack=None, seen=None):
     elif isinstance(obj, tuple):
         for v in obj:
             _heal(v, stack + [obj], seen)
+
+
+def _first_raw_list(obj, seen=None):
+    seen = seen if seen is not None else set()
+    if id(obj) in seen:
+        return None
+    seen.add(id(obj))
+    if type(obj) is list:
+        return obj
+    if type(obj) is dict:
+        kids = list(obj.values())
+    elif isinstance(obj, tuple):
+        kids = list(obj)
+    else:
+        return None
+    for k in kids:
+        r = _first_raw_list(k, seen)
+        if r is not None:
+            return r
+    return None
 
 
 def _navigate(obj, path):
@@ -552,6 +602,13 @@ def execute(desc):
                 events.append([i, "sub-skip"])
                 continue
             promote(i, "sub", x, "sub", op.get("k"), op.get("exc"), slot=op["slot"])
+        elif kind == "mutate":
+            tgt = _first_raw_list(pool[op["slot"]])
+            if tgt is not None:
+                tgt.append(op["v"])
+                probes["mutations_between_promotions"] = probes.get("mutations_between_promotions", 0) + 1
+            events.append([i, "mutate", op["slot"], tgt is not None])
+            promote(i, "mutated", pool[op["slot"]], "mutated", slot=op["slot"])
         elif kind == "heal":
             _heal(pool[op["slot"]])
             events.append([i, "heal", op["slot"]])
@@ -603,7 +660,7 @@ def _simpler(spec):
             for i, s in enumerate(items):
                 for s2 in _simpler(s):
                     yield dict(spec, items=items[:i] + [s2] + items[i + 1:])
-    elif t not in ("int", "ref", "obj", "deep"):
+    elif t not in ("int", "ref", "obj", "deep", "alias"):
         yield {"t": "int", "v": 1}
     elif t == "deep" and spec["n"] > 1100:
         yield dict(spec, n=1100)
